@@ -18,6 +18,8 @@ KINDS = {
     "wcases": ("http.Handler variant: every call of writeResponse on the ResponseWriter (header map, status, writes, flushes, trailers)",
                "the server is handed the origin's status, header fields, body and declared trailers; unknown-length bodies flushed per write"),
     "gcases": ("net/http Response.Write (modelled) behind the real flush writer", "-"),
+    "dcases": ("the relay LTS (Relay.v: modelled bufio.Writer under the real pattern writer, fed by modelled Response.Write): number of connection writes at every body read, all connection writes",
+               "whenever the body is asked for more data, the connection holds every earlier read as complete chunks (chunked coding) / everything up to the last complete event (event stream)"),
     "ecases": ("end to end through forwarder.NewHTTPProxy: bytes at the raw client", "client parser consumes exactly the k-th response; body/headers/trailers intact"),
     "tcases": ("end to end delivery times", "event/chunk visible before the origin sends the next byte"),
     "lcases": ("-", "with --log-http body, a slowly read large response and concurrent exchanges keep their own body bytes (logging must not alter messages)"),
@@ -62,6 +64,8 @@ def classify(kind, case):
         return ("handler-" if c.get("Handler") else "") + "body-logging-alters-message"
     if kind == "wcases":
         return "handler-hands-wrong-data-to-the-server"
+    if kind == "dcases":
+        return "sent-event-or-chunk-held-back-in-connection-buffer"
     pre = "handler-" if kind == "xcases" else ""
     if kind == "xcases" and case.get("only304ct"):
         return "handler-304-content-type-dropped"
